@@ -19,6 +19,17 @@ in range (group1/14/16 and gex); NIST points: empty, infinity, truncated, extend
 coordinate >= field prime, random off-curve, point of another curve, compressed, other valid point;
 X25519: the small-order encodings (classified by a pure-python RFC 7748 ladder in this file: result
 all-zero), wrong lengths, random strings; gex modulus sizes 512..16384 around 1023/1024 and 8192/8193.
+Wire encodings (DH e / f, gex p / g): every value is also sent in NON-CANONICAL mpint encodings - the case's
+"enc" is absent (RFC 4251 minimal form), ["pad", k] (k redundant sign-extension bytes: 00 for values >= 0 -
+zero becomes k zero bytes -, ff for negative ones), ["padto", n] (sign-extended to n bytes: an out-of-range
+value whose ENCODED length is that of an in-range one) or ["strip"] (the leading 00 of a value whose top bit
+is set removed). The harness decodes the octets it puts on the wire with refssh (two's complement, RFC 4251
+5) and classifies the DECODED value; "strip" therefore stands for the negative number v - 2**(8n).
+Gex groups additionally come from a lying server inside the MITM ("gexwire": p of a drawn size and g = 2 in any
+of these encodings replace the honest group; the MITM answers GEX_INIT with f = g (its secret is 1, K = e) and
+signs the RFC 4419 hash of what the client was shown), so that only the client's size check stands between an
+out-of-range modulus and NEWKEYS, whatever its encoding; in-range sizes are the control (must be accepted for the
+out-of-range verdicts to mean anything; counted).
 Oracle: value outside [1, p-1] / malformed or off-curve point / all-zero X25519 result / wrong X25519
 length / gex p outside 1024..8192 bits  =>  the tested side's handshake fails: it never sends NEWKEYS,
 never sets initial_kex_done, start_client / the server's negotiation ends with an error.
@@ -34,8 +45,11 @@ LEVEL = "exploration"
 RULE = (
     "role (client/server tested) x kex (group1/14/16, gex-sha1/256, nistp256/384/521, curve25519) x peer public value from "
     "the boundary list (0,1,2,p-2,p-1,p,p+1,2p,2p+1,-p,1-p,-1 / malformed, off-curve, foreign-curve, >=field-prime points / "
-    "small-order and wrong-length X25519 strings / gex modulus sizes 512..16384) enumerated completely, plus hypothesis-drawn "
-    "random out-of-range integers, off-curve coordinates and byte strings. non-trivial = value outside the accepted domain "
+    "small-order and wrong-length X25519 strings / gex modulus sizes 512..16384) enumerated completely; DH e/f and gex p/g also in "
+    "non-canonical mpint encodings (redundant sign-extension bytes 1..len(p)+1, padded to the encoded length of an in-range value, "
+    "leading 00 stripped; quick: every encoding for 0, the stripped form for p-2..p+1, one rotating padding per other boundary value; gex group through a lying "
+    "MITM server so that the encoding is under control), plus hypothesis-drawn "
+    "random out-of-range integers (x drawn encoding), off-curve coordinates and byte strings. non-trivial = value outside the accepted domain "
     "(reference classification in the harness); distinct by full case"
 )
 
@@ -174,6 +188,46 @@ def dh_value(spec, p):
     return base + spec[1]
 
 
+def mp_wire(v, enc):
+    """Octets of the mpint field (without the length prefix) for value v in encoding `enc`."""
+    body = R.mpint_body(v)
+    if not enc:
+        return body
+    fill = b"\xff" if v < 0 else b"\x00"
+    kind = enc[0]
+    if kind == "pad":
+        return fill * int(enc[1]) + body
+    if kind == "padto":
+        return fill * max(0, int(enc[1]) - len(body)) + body
+    if kind == "strip":
+        if len(body) > 1 and body[0] == 0:
+            return body[1:]  # top bit set now: a negative number
+        return fill + body
+    raise ValueError(enc)
+
+
+def mp_decode(body):
+    """RFC 4251 5 value of the octets (refssh)."""
+    return R.Reader(R.string(body)).mpint()
+
+
+def enc_label(v, enc):
+    if not enc:
+        return "canonical"
+    if enc[0] == "strip":
+        return "leading-00-stripped" if mp_decode(mp_wire(v, enc)) != v else "sign-extended"
+    return "sign-extended" if mp_wire(v, enc) != R.mpint_body(v) else "canonical"
+
+
+DH_ENCODINGS = [["pad", 1], ["pad", 2], ["pad", 4], ["padto", "len(p)+1"], ["strip"]]
+
+
+def _enc_for(enc, p):
+    if enc and enc[0] == "padto" and enc[1] == "len(p)+1":
+        return ["padto", len(R.mpint_body(p)) + 1]
+    return enc
+
+
 DH_BOUNDARY = [("0", 0), ("0", 1), ("0", 2), ("p", -2), ("p", -1), ("p", 0), ("p", 1), ("2p", 0), ("2p", 1), ("-p", 0), ("-p", 1), ("0", -1)]
 
 
@@ -261,8 +315,17 @@ def _session(kex, pack_entries, cb):
     with mitm.modulus_pack(pack_entries):
         link, tc, ts = peers.make_pair(client_kw=_only_kex(kex), host_keys=(HOSTKEY,))
         m = mitm.PlainMitm(link)
+        cb_errors = []
+
+        def guarded(d, i, payload):
+            try:
+                return cb(m, d, i, payload)
+            except Exception as e:  # a harness bug inside the MITM must not pass for a refused handshake
+                cb_errors.append(repr(e))
+                raise
+
         if cb is not None:
-            m.on_packet = lambda d, i, payload: cb(m, d, i, payload)
+            m.on_packet = guarded
         try:
             ce, se = peers.start_both(tc, ts, timeout=60.0)
             if ce is not None and se is None:
@@ -283,12 +346,16 @@ def _session(kex, pack_entries, cb):
             mitm.cancel_timers(tc, ts)
     if m.errors:
         raise core.HarnessError("PlainMitm could not parse the handshake: %r" % (m.errors,))
+    if cb_errors:
+        raise core.HarnessError("MITM callback failed: %r" % (cb_errors,))
     out["mitm"] = m
     return out
 
 
-def _forge(kex, m, reply_type, fmt, k_s, new_mid_value, K):
-    """Reply signed by the host key over the exchange hash of the *edited* exchange."""
+def _forge(kex, m, reply_type, fmt, k_s, new_mid_value, K, wire=None, group=None):
+    """Reply signed by the host key over the exchange hash of the *edited* exchange. The hash is
+    the RFC one (defined over VALUES); `wire` = octets to put on the wire for f instead of the minimal
+    mpint; `group` = (p, g) the client was shown instead of the server's (gex); K may be a callable(e)."""
     fam = mitm.kex_family(kex)
     c = {p[0]: p for p in m.seen["c2s"]}
     s = {p[0]: p for p in m.seen["s2c"]}
@@ -297,15 +364,71 @@ def _forge(kex, m, reply_type, fmt, k_s, new_mid_value, K):
         mid = mitm.mid_dh(e, new_mid_value)
     elif fam == "gex":
         _, mn, n, mx = mitm.unpack(c[34], "uuu")
-        _, p, g = mitm.unpack(s[31], "mm")
+        p, g = group if group is not None else mitm.unpack(s[31], "mm")[1:]
         e = mitm.unpack(c[32], "m")[1]
         mid = mitm.mid_gex(mn, n, mx, p, g, e, new_mid_value)
     else:
         q_c = mitm.unpack(c[30], "s")[1]
         mid = mitm.mid_ecdh(q_c, new_mid_value)
+    if callable(K):
+        K = K(e)
     H = mitm.exchange_hash(kex, m.banner["c2s"], m.banner["s2c"], c[20], s[20], k_s, mid, K)
     sig = peers.keypool()[HOSTKEY].sign_ssh_data(H, "ssh-ed25519").asbytes()
+    if wire is not None:
+        return R.u8(reply_type) + R.string(k_s) + R.string(wire) + R.string(sig)
     return mitm.pack(reply_type, fmt, [k_s, new_mid_value, sig])
+
+
+def run_gexwire(ctx, case):
+    """Client tested: the group comes from a lying server in the MITM (see module docstring)."""
+    kex, spec = case["kex"], tuple(case["value"])
+    bits, seed = spec[1], spec[2]
+    p = (1 << (bits - 1)) | (seed % (1 << (bits - 1))) | 1
+    g = 2
+    penc, genc = case.get("enc"), case.get("genc")
+    pw, gw = mp_wire(p, _enc_for(penc, p)), mp_wire(g, genc)
+    if mp_decode(pw) != p or mp_decode(gw) != g:
+        raise core.HarnessError("gexwire encodings must keep the value (negative moduli are excluded): %r" % (case,))
+    bad = bits < 1024 or bits > 8192
+    st_ = {"group": 0, "reply": 0}
+
+    def cb(m, d, i, payload):
+        if d == "c2s" and payload[0] == 32 and st_["group"]:
+            # the real server (only used as a packet source) must get an e that fits ITS group
+            return [mitm.pack(32, "m", [2])]
+        if d != "s2c":
+            return None
+        if payload[0] == 31 and not st_["group"] and 34 in m.types("c2s"):
+            st_["group"] = 1
+            return [R.u8(31) + R.string(pw) + R.string(gw)]
+        if payload[0] == 33 and st_["group"] and not st_["reply"] and 32 in m.types("c2s"):
+            st_["reply"] = 1
+            k_s = mitm.unpack(payload, "sms")[1]
+            # the lying server's secret is y = 1: f = g, K = e**1 mod p = e
+            return [_forge(kex, m, 33, "sms", k_s, g, lambda e: e % p, group=(p, g))]
+        return None
+
+    r = _session(kex, [(2, mitm.group_prime(1024))], cb)
+    if not st_["group"]:
+        raise core.HarnessError("group never replaced: %r (client=%r server=%r)" % (case, r["ce"], r["se"]))
+    cl = ["client", "gex-group", "gex-group:lying-server", "gex-group:out-of-range" if bad else "gex-group:in-range", "kex:" + kex]
+    cl += ["gex-p-encoding:" + enc_label(p, _enc_for(penc, p)), "gex-g-encoding:" + enc_label(g, genc)]
+    ctx.case(case, bad, cl)
+    accepted = r["c_done"] or r["c_newkeys"]
+    if not bad:
+        ctx.count("control:lying-server-in-range-group:" + ("accepted" if accepted else "refused"))
+        return True
+    if accepted:
+        ctx.violation(
+            "gex-modulus-size",
+            "client:%s-bit-modulus-accepted%s" % ("short" if bits < 1024 else "long", "" if not penc else ":non-canonical-encoding"),
+            case,
+            "p has %d bits, sent as %d octets (%s), g sent as %s; start_client -> %r, client sent %r" % (bits, len(pw), enc_label(p, _enc_for(penc, p)), gw.hex(), r["ce"], r["c_types"]),
+        )
+        return False
+    if 32 in r["c_types"]:
+        ctx.count("gexwire:out-of-range-group:client-sent-GEX_INIT-then-failed")
+    return True
 
 
 def run_case(ctx, case):
@@ -329,10 +452,19 @@ def run_case(ctx, case):
             return False
         return True
 
+    if spec[0] == "gexwire":
+        return run_gexwire(ctx, case)
+
     # ---- public value
+    wire = None
     if fam in ("dh", "gex"):
         p = mitm.fixed_group_prime(kex) if fam == "dh" else mitm.group_prime(1024)
         val = dh_value(spec, p)
+        enc = _enc_for(case.get("enc"), p)
+        if enc:
+            wire = mp_wire(val, enc)
+            enc = enc_label(val, enc)
+            val = mp_decode(wire)  # what the octets mean (differs from the drawn value for "strip")
         bad = val < 1 or val > p - 1
         known_k = {0: 0, 1: 1}.get(val % p)
         kind = "dh"
@@ -356,6 +488,8 @@ def run_case(ctx, case):
             return None
         if role == "server" and d == "c2s" and payload[0] == init_type and (fam != "gex" or 34 in m.types("c2s")):
             applied.append(1)
+            if wire is not None:
+                return [R.u8(init_type) + R.string(wire)]
             return [mitm.pack(init_type, mitm.FORMATS[(fam, init_type)], [val])]
         if role == "client" and d == "s2c" and payload[0] == reply_type and (fam != "gex" or 32 in m.types("c2s")):
             applied.append(1)
@@ -363,7 +497,9 @@ def run_case(ctx, case):
             k_s, _, sig = mitm.unpack(payload, fmt)[1:]
             if sign:
                 forged.append(1)
-                return [_forge(kex, m, reply_type, fmt, k_s, val, known_k)]
+                return [_forge(kex, m, reply_type, fmt, k_s, val, known_k, wire=wire)]
+            if wire is not None:
+                return [R.u8(reply_type) + R.string(k_s) + R.string(wire) + R.string(sig)]
             return [mitm.pack(reply_type, fmt, [k_s, val, sig])]
         return None
 
@@ -371,6 +507,10 @@ def run_case(ctx, case):
     if not applied:
         raise core.HarnessError("edit never applied: %r (client=%r server=%r, c2s %r s2c %r)" % (case, r["ce"], r["se"], r["c_types"], r["s_types"]))
     cl = [role, kind, "kex:" + kex, "out-of-domain" if bad else "in-domain"]
+    if fam in ("dh", "gex"):
+        cl.append("mpint-encoding:" + (enc or "canonical"))
+        if bad and wire is not None:
+            cl.append("out-of-domain:non-canonical:" + ("zero" if val == 0 else "negative" if val < 0 else "above-p-1"))
     if forged:
         cl.append("lying-server-signed")
     ctx.case(case, bad, cl)
@@ -385,9 +525,9 @@ def run_case(ctx, case):
         if r["s_newkeys"] or r["s_done"]:
             ctx.violation(
                 "invalid-peer-value-rejected",
-                "server:%s:%s" % (fam, _bucket(fam, spec, val)),
+                "server:%s:%s%s" % (fam, _bucket(fam, spec, val), _noncanon(case)),
                 case,
-                "server got %s; negotiation error %r, initial_kex_done=%s, server sent types %r" % (_show(val), r["se"], r["s_done"], r["s_types"]),
+                "server got %s%s; negotiation error %r, initial_kex_done=%s, server sent types %r" % (_show(val), _showwire(wire), r["se"], r["s_done"], r["s_types"]),
             )
             return False
     else:
@@ -397,9 +537,9 @@ def run_case(ctx, case):
         if r["c_newkeys"] or r["c_done"]:
             ctx.violation(
                 "invalid-peer-value-rejected",
-                "client:%s:%s%s" % (fam, _bucket(fam, spec, val), ":signed" if forged else ""),
+                "client:%s:%s%s%s" % (fam, _bucket(fam, spec, val), ":signed" if forged else "", _noncanon(case)),
                 case,
-                "client got %s (%s); start_client -> %r, initial_kex_done=%s, client sent types %r" % (_show(val), "reply re-signed by the host key" if forged else "plain edit", r["ce"], r["c_done"], r["c_types"]),
+                "client got %s%s (%s); start_client -> %r, initial_kex_done=%s, client sent types %r" % (_show(val), _showwire(wire), "reply re-signed by the host key" if forged else "plain edit", r["ce"], r["c_done"], r["c_types"]),
             )
             return False
     return True
@@ -409,6 +549,16 @@ def _bucket(fam, spec, val):
     if fam in ("dh", "gex"):
         return "below-1" if val < 1 else "above-p-1"
     return spec[0]
+
+
+def _noncanon(case):
+    return ":non-canonical-encoding" if case.get("enc") else ""
+
+
+def _showwire(wire):
+    if wire is None:
+        return ""
+    return " sent as the non-minimal mpint %s%s (%d octets)" % (wire[:6].hex(), ".." if len(wire) > 6 else "", len(wire))
 
 
 def _show(val):
@@ -440,6 +590,38 @@ def boundary_domain(quick):
             cases.append({"role": role, "kex": X_KEX, "value": list(spec)})
             if role == "client" and spec[0] == "small":
                 cases.append({"role": role, "kex": X_KEX, "value": list(spec), "sign": False})
+    # non-canonical mpint encodings of e / f: every encoding for 0 (its minimal form is the empty string),
+    # for the other boundary values one rotating encoding (quick) / every encoding (thorough)
+    j = 0
+    for role in ("client", "server"):
+        for kex in dh_kex + GEX_KEX[: 1 if quick else 2]:
+            for spec in DH_BOUNDARY:
+                for ei, enc in enumerate(DH_ENCODINGS):
+                    if enc == ["strip"]:
+                        if spec[0] != "p":
+                            continue  # only values whose minimal form starts with the sign byte 00
+                    elif quick and spec != ("0", 0) and ei != j % (len(DH_ENCODINGS) - 1):
+                        continue
+                    cases.append({"role": role, "kex": kex, "value": list(spec), "enc": list(enc)})
+                j += 1
+        if quick:
+            for ki, kex in enumerate(("diffie-hellman-group14-sha1", "diffie-hellman-group14-sha256", "diffie-hellman-group16-sha512", GEX_KEX[1])):
+                cases.append({"role": role, "kex": kex, "value": ["0", 0], "enc": list(DH_ENCODINGS[(ki + (role == "server")) % 4])})
+                cases.append({"role": role, "kex": kex, "value": ["p", ki % 2], "enc": [["strip"], ["pad", 3]][ki // 2]})
+    # gex group from the lying MITM server: sizes x encoding of p (and of g)
+    encs = [None, ["pad", 1], ["pad", 3], ["padto", 129], ["padto", 257], ["padto", 1025]]
+    for i, bits in enumerate(GEX_SIZES):
+        for ei, enc in enumerate(encs):
+            if quick and ei not in (i % len(encs), (i + 3) % len(encs)):
+                continue
+            if quick and bits == 8192 and not enc:
+                continue  # (seconds of modular arithmetic; the honest-server case below covers the minimal form)
+            c = {"role": "client", "kex": GEX_KEX[(i + ei) % 2], "value": ["gexwire", bits, 4242 + i]}
+            if enc:
+                c["enc"] = list(enc)
+            if (i + ei) % 3 == 0:
+                c["genc"] = ["pad", 1 + ei % 2]
+            cases.append(c)
     for i, bits in enumerate(GEX_SIZES):
         if quick and bits in (8192, 2048) and i % 2:
             pass
@@ -464,6 +646,13 @@ def random_cases():
             st.tuples(st.sampled_from(["p", "2p", "-p", "0"]), st.integers(-3, 3)),
         ),
     ).map(lambda t: {"role": t[0], "kex": t[1], "value": list(t[2])})
+    encodings = st.one_of(
+        st.tuples(st.just("pad"), st.integers(1, 8)),
+        st.tuples(st.just("pad"), st.integers(9, 600)),
+        st.tuples(st.just("padto"), st.sampled_from([129, 130, 257, 258, 513, "len(p)+1"])),
+        st.tuples(st.just("strip")),
+    ).map(list)
+    dh_enc = st.tuples(dh, encodings).map(lambda t: dict(t[0], enc=t[1]))
     coords = st.integers(0, 2**530)
     ecs = st.tuples(
         role,
@@ -487,7 +676,10 @@ def random_cases():
     ).map(lambda t: {"role": t[0], "kex": X_KEX, "value": list(t[1])})
     sizes = st.tuples(st.integers(512, 1023), st.integers(0, 2**510)).map(lambda t: {"role": "client", "kex": GEX_KEX[t[1] % 2], "value": ["gexsize", t[0], "2", t[1]]})
     sizes_hi = st.tuples(st.integers(8193, 16384), st.integers(0, 2**510)).map(lambda t: {"role": "client", "kex": GEX_KEX[t[1] % 2], "value": ["gexsize", t[0], "2", t[1]]})
-    table = [dh] * 4 + [ecs] * 4 + [xs] * 2 + [sizes, sizes_hi]
+    wire = st.tuples(st.one_of(st.integers(512, 1023), st.integers(8193, 9000), st.integers(1024, 2048)), st.integers(0, 2**510), st.one_of(st.none(), encodings.filter(lambda e: e[0] != "strip" and e[1] != "len(p)+1")), st.one_of(st.none(), st.tuples(st.just("pad"), st.integers(1, 4)).map(list))).map(
+        lambda t: dict({"role": "client", "kex": GEX_KEX[t[1] % 2], "value": ["gexwire", t[0], t[1]]}, **dict(([("enc", t[2])] if t[2] else []) + ([("genc", t[3])] if t[3] else [])))
+    )
+    table = [dh] * 3 + [dh_enc] * 3 + [ecs] * 4 + [xs] * 2 + [sizes, sizes_hi, wire, wire]
     return st.integers(0, len(table) - 1).flatmap(lambda i: table[i])
 
 
@@ -507,7 +699,9 @@ def run(ctx):
     if done_all:
         ctx.exhaustive = True
         ctx.note("exhaustive_over", "the boundary list (%d cases: role x kex x boundary value); random values are sampled" % len(dom))
-    ctx.explore(random_cases(), lambda c: run_case(ctx, c), ctx.scale(110, 6000), shrink=False)
+    ctx.explore(random_cases(), lambda c: run_case(ctx, c), ctx.scale(130, 6000), shrink=False)
+    if ctx.classes.get("gex-group:lying-server") and not ctx.classes.get("control:lying-server-in-range-group:accepted"):
+        ctx.inconc("gexwire:control-never-accepted(out-of-range verdicts of the lying gex server mean nothing)")
 
 
 def replay(ctx, case):
